@@ -189,6 +189,29 @@ CLAIMED['C05'] = dict(
     note='Trusted: Lean kernel; SHA-256 / DeepHash digests (HashSound is an assumption of the theorem, exercised by C12); pairing observed, not modelled. The semantic reading '
          '(hash verdict = nested set equality) rests on evaluation. Domain: NoSpoof, NoNumAlias jointly.',
     technique='Lean 4 proof (mutual structural induction, fold invariants) + differential correspondence with observed pairing + independent reference equality')
+CLAIMED['C12'] = dict(
+    text='PARTIAL. Lean 4 theorems: every normalisation option the two engines share is handed from DeepDiff to DeepHash (over the table regenerated from DEEPHASH_PARAM_KEYS and '
+         '_get_deephash_params on every run); in the ignore-order model, for every pairing, the diff is empty exactly when at every list both sides have the same set of item hashes '
+         '(same multiplicities with report_repetition = not ignore_repetition), dictionaries agree key by key and leaves are equal; hence an empty diff implies equal hashes for any item '
+         'hash that respects that verdict. ' + _IOMODEL + 'The equivalence DeepHash(a)[a] == DeepHash(b)[b] <=> DeepDiff(a, b, ignore_order=True) == {} itself is decided on the '
+         'implementation for each shared option (string case / type, numeric type, significant digits f and e, truncate_datetime, default_timezone, use_enum_value), pairs of options, '
+         'both report_repetition settings, over structural pairs and pairs that differ only in what the option ignores; the direction equal digests => empty diff needs the injectivity of '
+         'the hash framing (C07) and is not proved.',
+    design='5/C12',
+    note='Trusted: Lean kernel; SHA-256; HashSound is a hypothesis of the model theorems. Options are not part of the ignore-order Lean model (observed only). '
+         'Fixed in /repo: F28 (truncate_datetime was not forwarded). Known finding F18 (1 vs 1.0 through the shared hashes table).',
+    technique='Lean 4 proof (table membership by decide; C05 induction) + evaluation of the equivalence under every shared option')
+CLAIMED['C17'] = dict(
+    text='PARTIAL. Lean 4 theorems: the memoisation of _get_rough_distance_of_hashed_objs over the LFU cache model of C18 (membership test, get, computation, set - the shape is '
+         'regenerated from the source each run) returns exactly the directly computed values for every capacity, every history of queries, every on/off schedule of the auto-tuner and '
+         'every coherent shared cache state, provided the memoised value is a function of the cache key; the ignore-order result depends on the caches only through the pairing and its '
+         'emptiness not at all. Tied to the code by replaying the recorded cache traffic of real runs in the compiled model (hit / miss sequences) and checking the query grammar. '
+         'Identity of the complete result across cache_size x cache_tuning_sample_size x cache_purge_level x repeated runs x a pre-seeded hashes table, and of DeepDiff / DeepHash / Delta '
+         'results under 8-16 threads with switch interval 1e-6, is decided on the implementation.',
+    design='5/C17',
+    note='Trusted: Lean kernel; CPython thread scheduling (sampled); that a rough distance / a pairing is a function of its cache key (assumption; finding F16 is where it shows). '
+         'cache_purge_level, hashes tables and threads are observed, not modelled.',
+    technique='Lean 4 proof (invariant over LFU steps, refinement from C18) + cache-traffic replay + evaluation across cache settings and threads')
 NA = {}
 
 checks = []
